@@ -1,5 +1,5 @@
 (* C20 - the lemmas Properties.v closes its theorems with. *)
-From VF.C20 Require Import Model Spec Lemmas ProofsWF ProofsWF2 ProofsWF3 ProofsCaps ProofsNonce ProofsNonce2 ProofsNonce3 ProofsNonce4 ProofsNonce5.
+From VF.C20 Require Import Model Spec Lemmas ProofsWF ProofsWF2 ProofsWF3 ProofsCaps ProofsNonce ProofsNonce2 ProofsNonce3 ProofsNonce4 ProofsNonce5 ProofsTotal.
 From Coq Require Import Lia ZifyBool ZifyN ZifyNat.
 Local Open Scope N_scope.
 
@@ -125,3 +125,34 @@ Qed.
 
 Lemma pending_api_all_histories c g ops : pending_api_exact (run (new_pool c g) ops).
 Proof. apply pending_view_exact, sc_run, sc_new_pool. Qed.
+
+(* ---- totality and limits -------------------------------------------------------- *)
+Lemma never_panics_all_histories c g ops :
+  1 <= account_slots c -> panicked (run (new_pool c g) ops) = false.
+Proof. apply never_panics. Qed.
+
+Lemma cfg_after_reorg c g ops rs dirty ord :
+  cfg (run_reorg (run (new_pool c g) ops) rs dirty ord) = c.
+Proof.
+  destruct (fr_run_reorg (run (new_pool c g) ops) rs dirty ord) as [E1 _].
+  destruct (fr_run ops (new_pool c g)) as [E2 _]. destruct (total_new_pool c g) as (_ & _ & E3). congruence.
+Qed.
+
+Lemma limits_all_histories c g ops rs dirty ord :
+  1 <= account_slots c ->
+  limits_respected c (run_reorg (run (new_pool c g) ops) rs dirty ord).
+Proof.
+  intro H. pose proof (limits_hold c g ops rs dirty ord H) as L. unfold limits_after_reorg in L.
+  rewrite (cfg_after_reorg c g ops rs dirty ord) in L. exact L.
+Qed.
+
+Lemma account_queue_all_histories c g ops d ord :
+  1 <= account_slots c ->
+  let p' := run_reorg (run (new_pool c g) ops) None (Some d) ord in
+  forall a, In a d -> is_local p' a = false -> queue_len p' a <= account_queue c.
+Proof. intro H. exact (account_queue_holds c g ops d ord H). Qed.
+
+Lemma accepted_is_pooled c g ops t local rep p' :
+  add_tx (run (new_pool c g) ops) t local = (rep, E_ok, p') ->
+  In t (all p') /\ (In t (held (pending p') (t_from t)) \/ In t (held (queue p') (t_from t))).
+Proof. intro H. eapply add_ok_is_pooled; eauto. apply ws_run, ws_new_pool. Qed.
